@@ -781,37 +781,47 @@ func TestCheck(t *testing.T) {
 			stopProf = func() { pprof.StopCPUProfile(); f.Close() }
 		}
 	}
-	depth := vk.Pick(r, 2, 3)
-	names := tplNames(r.Thorough())
+	// plans: quick = the quick alphabet at depth 2; thorough = A: the full
+	// alphabet at depth 2 and B: the quick alphabet at depth 3 (multi: A only)
+	type plan struct {
+		name  string
+		names []string
+		depth int
+	}
+	plans := []plan{{"A", tplNames(r.Thorough()), 2}}
+	if r.Thorough() {
+		plans = append(plans, plan{"B", tplNames(false), 3})
+	}
 	fams := families(r.Thorough())
 	var perFam [][]job
 	hist := 0
 	notApplicable := 0
 	for _, f := range fams {
-		sc, err := chainx.NewScenario(f.Family, f.Pad, tplByName(names...))
-		if err != nil {
-			fmt.Println("CHECK-ERROR: cannot build the preamble of", f.Name, err)
-			os.Exit(3)
-		}
-		sc.OnTx = func(tpl, st string) { r.Outcome("tx:" + tpl + ":" + st) }
-		d := depth
-		if f.Depth != 0 {
-			d = f.Depth
-		}
-		hs := sc.BuildTree(d, func(n int, fn func(int)) { r.Parallel(n, fn) })
-		total := 1
-		for i := 0; i < d; i++ {
-			total *= len(names)
-		}
-		notApplicable += total - len(hs)
-		var fj []job
-		for i, h := range hs {
-			hist++
-			for _, v := range variantsOf(f, i, r.Thorough()) {
-				fj = append(fj, job{sc, f, v, h})
+		for _, pl := range plans {
+			if f.Depth != 0 && pl.depth > f.Depth {
+				continue
 			}
+			sc, err := chainx.NewScenario(f.Family, f.Pad, tplByName(pl.names...))
+			if err != nil {
+				fmt.Println("CHECK-ERROR: cannot build the preamble of", f.Name, err)
+				os.Exit(3)
+			}
+			sc.OnTx = func(tpl, st string) { r.Outcome("tx:" + tpl + ":" + st) }
+			hs := sc.BuildTree(pl.depth, func(n int, fn func(int)) { r.Parallel(n, fn) })
+			total := 1
+			for i := 0; i < pl.depth; i++ {
+				total *= len(pl.names)
+			}
+			notApplicable += total - len(hs)
+			var fj []job
+			for i, h := range hs {
+				hist++
+				for _, v := range variantsOf(f, i, r.Thorough()) {
+					fj = append(fj, job{sc, f, v, h})
+				}
+			}
+			perFam = append(perFam, fj)
 		}
-		perFam = append(perFam, fj)
 	}
 	// interleave the families so that a run stopped by the deadline has seen all of them
 	var jobs []job
@@ -847,6 +857,10 @@ func TestCheck(t *testing.T) {
 		}
 	})
 	stopProf()
+	var planDesc []string
+	for _, pl := range plans {
+		planDesc = append(planDesc, fmt.Sprintf("%s: %d templates, depth %d", pl.name, len(pl.names), pl.depth))
+	}
 	var famNames []string
 	for _, f := range fams {
 		famNames = append(famNames, f.Name)
@@ -862,8 +876,8 @@ func TestCheck(t *testing.T) {
 		"traces_validated_against_impl":  int(c.histRuns.Get()),
 		"histories":                      hist,
 		"histories_not_applicable":       notApplicable,
-		"depth":                          depth,
-		"block_alphabet":                 names,
+		"plans":                          planDesc,
+		"block_alphabet":                 tplNames(r.Thorough()),
 		"families":                       famNames,
 		"distinct_state_roots":           cx.roots.Len(),
 		"heights_checked":                int(c.heights.Get()),
@@ -880,7 +894,7 @@ func TestCheck(t *testing.T) {
 		"live_invocations_recorded":      int(c.liveInv.Get()),
 		"historic_invocations_equal":     int(c.histInv.Get()),
 		"historic_invocations_halted":    int(c.histInvHalt.Get()),
-		"rule":                           "every history = preamble + depth blocks of the alphabet (all K^depth) per family; state = (family, node variant, height, state root); exhaustive O1 once per distinct (family, root), the other oracles at every height of every history",
+		"rule":                           "every history = preamble + depth blocks of the plan's alphabet (all K^depth) per family and plan; state = (family, node variant, height, state root); exhaustive O1 once per distinct (family, root), the other oracles at every height of every history",
 	}, []string{
 		"map_h is read from the live node through Blockchain.SeekStorage over ids -16..-1 and 1..6 (the flat storage, not the trie)",
 		"FindStates/SeekStates/TrieStore.Seek range semantics are taken from their doc comments (ordered map: forwards = keys >= prefix+start ascending, backwards = keys <= prefix+start descending); for an empty FindStates result both ErrNotFound and an empty list are accepted",
